@@ -203,3 +203,150 @@ def rf7h_mir2c(run):
         if not ok and not exc:
             run.violation(rule, f, 'no case for %s' % nm, 'out_insn has no case for %s: the instruction is dropped from the generated C '
                           '(assertion failure without NDEBUG)' % nm, line=sw['l'])
+
+
+# ---------------------------------------------------------------------------------------------
+# RF7g label-operand positions
+# ---------------------------------------------------------------------------------------------
+
+def label_range_idiom(tu, f):
+    """extract {'default': (start, bound), 'MIR_LADDR': (…), 'MIR_SWITCH': (…)} from the
+    start_label_nop/bound_label_nop idiom of a function, or None"""
+    res = {}
+    for n in f.walk():
+        if n['k'] == 'DeclStmt':
+            d = {x['n']: x for x in n['decls']}
+            if 'start_label_nop' in d and 'bound_label_nop' in d and d['start_label_nop'].get('init') and d['bound_label_nop'].get('init'):
+                res['default'] = (F.src(F.strip(d['start_label_nop']['init'])), F.src(F.strip(d['bound_label_nop']['init'])))
+        if n['k'] == 'IfStmt':
+            c = F.strip(n['c'][0])
+            if c['k'] == 'BinaryOperator' and c['op'] == '==':
+                code = F.strip(c['c'][1])
+                if code['k'] == 'DeclRefExpr' and code.get('dk') == 'enumc' and n['c'][1] is not None:
+                    st = bd = None
+                    for x in F.walk(n['c'][1]):
+                        if x['k'] == 'BinaryOperator' and x['op'] == '=':
+                            l = F.src(F.strip(x['c'][0]))
+                            if l == 'start_label_nop':
+                                st = F.src(F.strip(x['c'][1]))
+                            elif l == 'bound_label_nop':
+                                bd = F.src(F.strip(x['c'][1]))
+                    if st is not None and bd is not None:
+                        res[code['n']] = (st, bd)
+    if 'default' not in res:
+        return None
+    return res
+
+
+def rf7g(run):
+    rule = 'RF7g'
+    run.rule(rule, 'label-operand positions: every function that rewrites label operands (insn duplication, link-time simplification, '
+                   'interpreter code generation) uses the same (start, bound) per opcode, those positions are where insn_descs has '
+                   'MIR_OP_LABEL, and the set of opcodes collected for label rewiring covers every opcode with a label operand')
+    tu = run.tu('mir')
+    sites = {}
+    for f in tu.func_list:
+        if any(n['k'] == 'DeclStmt' and any(d['n'] == 'start_label_nop' for d in n['decls']) for n in f.walk()):
+            r = label_range_idiom(tu, f)
+            if r is None:
+                run.analysis_broken(rule, '%s: label range idiom not recognised' % f.name)
+            else:
+                sites[f.name] = r
+                run.functions_analysed.add(('mir', f.name))
+    if len(sites) < 3:
+        raise F.AnalysisBroken('label range idiom found in %d functions, 3 expected' % len(sites))
+    ref_name = sorted(sites)[0]
+    ref = sites[ref_name]
+    norm = lambda t: (t[0], t[1].replace('code', 'X').replace('insn->X', 'X'))
+    for fn, r in sorted(sites.items()):
+        for key in sorted(set(ref) | set(r)):
+            a, b = ref.get(key), r.get(key)
+            ok = a is not None and b is not None and a == b
+            run.ob(rule, ('sibling', fn, key), ok, {'function': fn, 'opcode': key, 'range': b, 'reference (%s)' % ref_name: a})
+            if not ok:
+                run.violation(rule, tu.funcs[fn], 'label range for %s' % key,
+                              '%s rewrites label operands [%s) for %s but %s uses [%s)' % (fn, b, key, ref_name, a), line=tu.funcs[fn].line)
+    # table agreement
+    g, rows = rf_tables.read_insn_descs(tu)
+    for r in rows:
+        pos = [i for i, (m, o) in enumerate(r['modes']) if m == 'MIR_OP_LABEL']
+        if not pos:
+            continue
+        exp = ref.get(r['code'], ref['default'])
+        try:
+            st, bd = int(exp[0]), int(exp[1])
+        except ValueError:
+            continue
+        ok = pos == list(range(st, bd))
+        run.ob(rule, ('table', r['code']), ok, {'opcode': r['code'], 'label operands at': pos, 'rewritten range': [st, bd]})
+        if not ok:
+            run.violation(rule, '<file scope>', 'label position of %s' % r['code'],
+                          'insn_descs has the label operand(s) of %s at %s but the rewiring code rewrites operands [%d, %d)'
+                          % (r['code'], pos, st, bd), file=g['file'].replace(F.REPO + '/', ''), line=r['line'])
+    # collected opcode set covers all label-carrying opcodes
+    sf = tu.func('store_labels_for_duplication')
+    preds = EF.Predicates(tu)
+    codes = dict(tu.enum('MIR_insn_code_t'))
+    uni = frozenset(codes.values())
+    conds = [n for n in sf.walk() if n['k'] == 'IfStmt']
+    if not conds:
+        raise F.AnalysisBroken('store_labels_for_duplication: condition not found')
+    cond = conds[0]['c'][0]
+    collected = set()
+    for nm, v in codes.items():
+        val = preds.eval(cond, {'insn->code': v}, uni)
+        if val is None:
+            raise F.AnalysisBroken('store_labels_for_duplication: condition not evaluable')
+        if val:
+            collected.add(nm)
+    need = {r['code'] for r in rows if any(m == 'MIR_OP_LABEL' for m, o in r['modes'])} | {'MIR_SWITCH'}
+    for c in sorted(need):
+        ok = c in collected
+        run.ob(rule, ('collected', c), ok, {'opcode': c, 'collected for label rewiring': ok})
+        if not ok:
+            run.violation(rule, sf, 'opcode %s not collected' % c, '%s has a label operand but store_labels_for_duplication does not '
+                          'collect it: after code generation its label would point into the discarded copy' % c, line=sf.line)
+
+
+# ---------------------------------------------------------------------------------------------
+# RF7e type -> extension opcode maps
+# ---------------------------------------------------------------------------------------------
+import re as _re
+
+
+def rf7e(run, units=('mir', 'gen')):
+    rule = 'RF7e'
+    run.rule(rule, 'every switch that maps a narrow integer MIR type to an extension opcode (result extension in make_one_ret, argument '
+                   'extension in simplify_func, the target\'s get_ext_code) maps I<n> to EXT<n> and U<n> to UEXT<n>')
+    n = 0
+    for u in units:
+        tu = run.tu(u)
+        for f in tu.func_list:
+            for sw in [x for x in f.walk() if x['k'] == 'SwitchStmt']:
+                try:
+                    regs = R.switch_regions(f, sw)
+                except F.AnalysisBroken:
+                    continue
+                m = {}
+                for r in regs:
+                    exts = [x['n'] for x in R.region_nodes(r['stmts']) if x['k'] == 'DeclRefExpr' and x.get('dk') == 'enumc'
+                            and _re.fullmatch(r'MIR_U?EXT(8|16|32)', x['n'])]
+                    for (nm, lo, hi) in r['cases']:
+                        if nm and nm.startswith('MIR_T_') and exts:
+                            m[nm] = exts[0]
+                if len(m) < 3:
+                    continue
+                n += 1
+                run.functions_analysed.add((u, f.name))
+                for t in ('MIR_T_I8', 'MIR_T_U8', 'MIR_T_I16', 'MIR_T_U16', 'MIR_T_I32', 'MIR_T_U32'):
+                    want = 'MIR_%sEXT%s' % ('U' if t[6] == 'U' else '', t[7:])
+                    got = m.get(t)
+                    ok = got == want
+                    run.ob(rule, (u, f.name, sw['l'], t), ok, {'site': '%s:%d %s' % (f.relfile(), sw['l'], f.name), 'type': t, 'maps to': got,
+                                                               'specification': want})
+                    if not ok:
+                        run.violation(rule, f, 'extension of %s' % t, '%s extends a value of type %s with %s; the type\'s width and signedness '
+                                      'demand %s' % (f.name, t, got or 'nothing', want), line=sw['l'])
+    if n < 3:
+        run.analysis_broken(rule, 'only %d type->extension maps found (make_one_ret, simplify_func, get_ext_code expected)' % n)
+    return n
